@@ -104,8 +104,19 @@ Extremum(isMin, vals) ==
                  Go(i + 1, IF (isMin /\ c < 0) \/ (~isMin /\ c > 0) THEN vals[i] ELSE best)
     IN Go(2, vals[1])
 
+\* a mapping keyed by integers AND by tuples: tells m[1] from m[(1,)] (envobjs.MAPS)
+MapGet(mname, idx) ==
+    IF idx.k = "tup" /\ Len(idx.items) = 1 /\ IsNum(idx.items[1]) /\ idx.items[1].n = 1 /\ idx.items[1].d = 1
+        THEN IntV(7)
+    ELSE IF IsNum(idx) /\ idx.n = 1 /\ idx.d = 1 THEN IntV(9)
+    ELSE IF idx.k = "tup" /\ Len(idx.items) = 2 /\ IsNum(idx.items[1]) /\ IsNum(idx.items[2])
+            /\ idx.items[1].n = 0 /\ idx.items[2].n = 1 /\ idx.items[2].d = 1 THEN IntV(11)
+    ELSE IF IsNum(idx) \/ idx.k = "tup" THEN Err("KeyError")
+    ELSE Unrep
+
 Index(agg, idx) ==
-    IF agg.k \notin {"tup", "list"} THEN
+    IF agg.k = "map" THEN MapGet(agg.name, idx)
+    ELSE IF agg.k \notin {"tup", "list"} THEN
         (IF IsNum(agg) \/ agg.k \in {"fn", "obj"} THEN Err("TypeError") ELSE Unrep)
     ELSE IF ~IsNum(idx) THEN (IF idx.k \in {"tup", "list"} THEN Err("TypeError") ELSE Unrep)
     ELSE IF ~IsIntLike(idx) THEN Err("TypeError")
